@@ -29,6 +29,9 @@ type Step struct {
 type Case struct {
 	Steps []Step `json:"steps"`
 	Menu  string `json:"menu"` // quick | thorough
+	// Schema "" = every row carries all five simple field types; else the metric has only the field of this type
+	// (table files and memory pages of a one-field metric take their own code paths).
+	Schema string `json:"schema,omitempty"`
 	// Only is set in replays of a single failing query (empty = whole menu).
 	Only *Query `json:"only,omitempty"`
 	// Special names the scripted scenarios (special.go) in a replay.
@@ -92,6 +95,9 @@ func slotOf(name string) int64 {
 
 func (c Case) String() string {
 	var sb strings.Builder
+	if c.Schema != "" {
+		sb.WriteString("[only " + fieldName(c.Schema) + "] ")
+	}
 	for i, s := range c.Steps {
 		if i > 0 {
 			sb.WriteByte(' ')
@@ -223,7 +229,9 @@ func (w *world) apply(c Case, metric string) (*model, error) {
 			p := vbox.MultiPoint{Metric: metric, Tags: map[string]string{"host": s.Series},
 				Timestamp: w.base + t + int64(wi+1)*1000}
 			for _, ft := range fieldTypes {
-				p.Fields = append(p.Fields, vbox.FieldValue{Name: fieldName(ft), Type: ft, Value: v})
+				if c.Schema == "" || c.Schema == ft {
+					p.Fields = append(p.Fields, vbox.FieldValue{Name: fieldName(ft), Type: ft, Value: v})
+				}
 			}
 			if err := w.box.WriteMulti(shardID, p); err != nil {
 				return nil, fmt.Errorf("step %d write: %w", i, err)
